@@ -166,3 +166,36 @@ func uncleanKey(i int) *Case {
 	}
 	return c
 }
+
+// portKey: one published port declared by two layers, the later one replacing the earlier whatever
+// the spelling of `published` / `target` (integer, quoted text, short syntax) on either side.
+func portKey(i int) *Case {
+	spell := []string{
+		`"8080:80"`,
+		`{target: 80, published: 8080}`,
+		`{target: 80, published: "8080"}`,
+		`{target: 80, published: 8080, protocol: tcp}`,
+		`{target: 80, published: "8080", protocol: tcp, mode: ingress}`,
+	}
+	a, b := spell[i%len(spell)], spell[(i/len(spell))%len(spell)]
+	asDocs := (i/(len(spell)*len(spell)))%2 == 1
+	later := strings.TrimSuffix(b, "}")
+	if strings.HasPrefix(b, "{") {
+		later += ", name: web}"
+	} else {
+		later = b
+	}
+	l1 := "services:\n  s:\n    image: img\n    ports:\n      - " + a + "\n      - \"9090:90\"\n"
+	l2 := "services:\n  s:\n    ports:\n      - " + later + "\n"
+	target := "services:\n  s:\n    image: img\n    ports:\n      - " + later + "\n      - \"9090:90\"\n"
+	c := &Case{Focus: "services.ports (one published port declared by two layers, spellings of published/target vary)", Parts: 2}
+	c.Target = ld.Case{Files: map[string]string{"compose.yaml": target}, ComposeFiles: []string{"compose.yaml"}}
+	if asDocs {
+		c.Carrier = "documents"
+		c.Split = ld.Case{Files: map[string]string{"compose.yaml": l1 + "---\n" + l2}, ComposeFiles: []string{"compose.yaml"}}
+	} else {
+		c.Carrier = "files"
+		c.Split = ld.Case{Files: map[string]string{"compose.yaml": l1, "compose.1.yaml": l2}, ComposeFiles: []string{"compose.yaml", "compose.1.yaml"}}
+	}
+	return c
+}
